@@ -6,6 +6,7 @@ mod hc;
 mod hc_random;
 mod hc_hostile;
 mod hc_script;
+mod tfrc;
 mod sess;
 mod sess_random;
 
@@ -104,6 +105,23 @@ fn main() {
             }
             progress(&progress_path, "done");
             eprintln!("hc-script: runs={} dead={} lines={}", n, dead, tr.lines);
+        }
+        "tfrc" => {
+            WD_SECS.store(3, std::sync::atomic::Ordering::SeqCst); // calls take microseconds
+            let seed = geti(&m, "seed", 1);
+            let runs = geti(&m, "runs", 10);
+            let start = geti(&m, "start", 0);
+            let mut tr = Trace::create(&out);
+            let mut calls = 0;
+            let mut dead = 0;
+            for i in start..start + runs {
+                progress(&progress_path, &format!("{}", i));
+                let (c, d) = tfrc::run_tfrc(&mut tr, i, mix(seed ^ 0x7F2C, i));
+                calls += c;
+                dead += d as u64;
+            }
+            progress(&progress_path, "done");
+            eprintln!("tfrc: runs={} calls={} dead={} lines={}", runs, calls, dead, tr.lines);
         }
         "sess-random" => {
             let seed = geti(&m, "seed", 1);
